@@ -33,9 +33,93 @@ def units(tier, seed, only=None):
 
 
 def run(tier, seed, only=None):
-    return runner.run_property(PROP, units(tier, seed, only), tier, seed, assumptions=ASSUME)
+    return runner.run_property(PROP, units(tier, seed, only), tier, seed, assumptions=ASSUME, replay_fn=replay_unit)
 
 
 def replay(path):
     print('see replay file', path)
     return 0
+
+
+# Native replay for the instruction-record unit: the real orcbytecode.c compiled by gcc, every operand-presence pattern with
+# pairwise different operands (plus the values of the verifier's trace when it has them), compared with the record layout
+# of the postcondition.  Functions of liborc that the encoder does not call stay unresolved (never executed).
+NATIVE_INSN = r'''
+#include <stdio.h>
+#include <stdlib.h>
+#include "/repo/orc/orcbytecode.c"
+static OrcStaticOpcode g_opc[4]; static OrcOpcodeSet g_set;
+OrcOpcodeSet *orc_opcode_set_get (const char *name) { return &g_set; }
+void *orc_malloc (size_t n) { void *p = malloc(n); if (!p) abort(); return p; }
+void *orc_realloc (void *q, size_t n) { void *p = realloc(q, n); if (!p) abort(); return p; }
+static int put_int(unsigned char *e, int v) { if (v < 255) { e[0] = v; return 1; } e[0] = 255; e[1] = v & 0xff; e[2] = v >> 8; return 3; }
+int main(void) {
+  static const int flv[] = { 0, 3, 254, 255, 300, TRACE_FL };
+  static const int base[] = { 10, 200, TRACE_ARG };
+  long fails = 0, tot = 0;
+  g_set.opcodes = g_opc; g_set.n_opcodes = 4;
+  for (int oi = 0; oi < 4; oi++) for (int pat = 0; pat < 32; pat++) for (int fi = 0; fi < 6; fi++) for (int bi = 0; bi < 3; bi++) {
+    OrcProgram *p = calloc(1, sizeof(*p)); OrcStaticOpcode *op = &g_opc[oi]; int arg[5];
+    memset(op, 0, sizeof(*op));
+    op->dest_size[0] = (pat & 1) ? 4 : 0; op->dest_size[1] = (pat & 2) ? 4 : 0;
+    op->src_size[0] = (pat & 4) ? 4 : 0; op->src_size[1] = (pat & 8) ? 4 : 0; op->src_size[2] = (pat & 16) ? 4 : 0;
+    for (int k = 0; k < 5; k++) arg[k] = (base[bi] + k) % 255;
+    p->n_insns = 1; p->insns[0].opcode = op; p->insns[0].flags = flv[fi];
+    p->insns[0].dest_args[0] = arg[0]; p->insns[0].dest_args[1] = arg[1];
+    p->insns[0].src_args[0] = arg[2]; p->insns[0].src_args[1] = arg[3]; p->insns[0].src_args[2] = arg[4];
+    unsigned char e[32]; int n = 0;
+    e[n++] = ORC_BC_BEGIN_FUNCTION;
+    if (flv[fi]) { e[n++] = ORC_BC_INSTRUCTION_FLAGS; n += put_int(e + n, flv[fi]); }
+    e[n++] = 32 + oi;
+    for (int k = 0; k < 5; k++) if (pat & (1 << k)) e[n++] = arg[k];
+    e[n++] = ORC_BC_END_FUNCTION; e[n++] = ORC_BC_END;
+    OrcBytecode *b = orc_bytecode_from_program(p);
+    tot++;
+    if (b->length != n || memcmp(b->bytecode, e, n) != 0) {
+      if (fails < 3) { printf("FAILING INPUT: opcode index %d, operand sizes d0=%d d1=%d s0=%d s1=%d s2=%d, flags %d, operands d0=%d d1=%d s0=%d s1=%d s2=%d\n  encoder wrote:", oi, op->dest_size[0], op->dest_size[1], op->src_size[0], op->src_size[1], op->src_size[2], flv[fi], arg[0], arg[1], arg[2], arg[3], arg[4]);
+        for (int j = 0; j < b->length; j++) printf(" %d", b->bytecode[j]); printf("\n  record layout:");
+        for (int j = 0; j < n; j++) printf(" %d", e[j]); printf("\n"); }
+      fails++;
+    }
+    orc_bytecode_free(b); free(p);
+  }
+  printf("TRIALS %ld FAILS %ld\n", tot, fails); return fails ? 1 : 0;
+}
+'''
+
+
+def replay_unit(res, fos):
+    if not res.unit.name.endswith(':insn_record'):
+        return None
+    import os, shutil, subprocess, tempfile
+    tv = core.trace_inputs(res.trace or [], ('fl',))
+    try:
+        fl = int(str(tv.get('fl', '1')).rstrip('uUlL')) % 65535
+    except ValueError:
+        fl = 1
+    src = NATIVE_INSN.replace('TRACE_FL', str(fl)).replace('TRACE_ARG', '60')
+    wd = tempfile.mkdtemp(prefix='orcverif.replay.', dir=core.SCRATCH_ROOT)
+    try:
+        c, o, st, exe = (os.path.join(wd, n) for n in ('replay.c', 'replay.o', 'stubs.c', 'replay'))
+        open(c, 'w').write(src)
+        flags = ['-O1', '-g', '-w'] + [x for x in core.cc_flags() if not x.startswith('-DORC_VERIF_CBMC')]
+        r = subprocess.run(['gcc'] + flags + ['-c', c, '-o', o], capture_output=True, text=True, timeout=300)
+        if r.returncode != 0:
+            return {'reproduced': False, 'error': 'native build failed', 'log': r.stderr[-2000:]}
+        und = subprocess.run(['nm', '-u', o], capture_output=True, text=True).stdout.split()
+        names = sorted(n for n in und if n.startswith('orc_') or n.startswith('_orc_'))
+        # liborc functions the encoder never calls (decoder side): aborting stubs so that the object links
+        open(st, 'w').write('#include <stdlib.h>\n' + ''.join('void %s(void) { abort(); }\n' % n for n in names))
+        r = subprocess.run(['gcc', '-w', o, st, '-lm', '-o', exe], capture_output=True, text=True, timeout=300)
+        if r.returncode != 0:
+            return {'reproduced': False, 'error': 'native link failed', 'log': r.stderr[-2000:]}
+        r = subprocess.run([exe], capture_output=True, text=True, timeout=300)
+        out = (r.stdout + r.stderr)[-3000:]
+        m = re.search(r'TRIALS (\d+) FAILS (\d+)', out)
+        rep = bool(m and int(m.group(2)) > 0)
+        return {'reproduced': rep, 'exit': r.returncode, 'output': out, 'stubbed_unreached': names, 'inputs_from_trace': {'fl': fl},
+                'source': src if rep else None}
+    except subprocess.TimeoutExpired:
+        return {'reproduced': False, 'error': 'native replay timeout'}
+    finally:
+        shutil.rmtree(wd, ignore_errors=True)
